@@ -1476,3 +1476,188 @@ Proof.
   { unfold transport6_ok. exact Hicmp. }
   split; [exact W|]. split; [exact V|]. repeat split; reflexivity.
 Qed.
+
+(* ====================================================================== the two TCP senders *)
+(* the options sendSynTCP encodes: opts.MSS == 0 means "derive it from the MTU" *)
+Definition eff_syn (o : synOpts) (mtu : Z) : synOpts :=
+  if sMSS o =? 0 then mkSyn (w16 (mtu - 20)) (sWS o) (sTS o) (sTSVal o) (sTSEcr o) (sSACKPermitted o) else o.
+
+(* SYN / SYN-ACK segments (sendSynTCP over IPv4): well-formed for every option combination, and the
+   receiver's ParseSynOptions recovers exactly the options that were passed in *)
+Theorem syn_frame_wf4 r mtu sp dp fl sq ak wnd o pool ttl c isAck :
+  let oe := eff_syn o mtu in
+  rOffload r = false ->
+  length (rLocal r) = 4%nat -> length (rRemote r) = 4%nat -> bytes_ok (rLocal r) -> bytes_ok (rRemote r) ->
+  Rfc.src4_ok (rLocal r) = true ->
+  0 <= sp < 65536 -> 0 <= dp < 65536 -> 0 <= fl < 256 -> flag_sane fl = true -> Rfc.has fl Rfc.SYN = true ->
+  wf_syn oe -> length pool = maxOptionSize -> 1 <= ttl < 256 ->
+  exists hdr frame c',
+    send_syn_tcp r mtu sp dp fl sq ak wnd o pool = Some hdr /\
+    ipv4_write r hdr [] 6 ttl c = Some (frame, c') /\
+    Rfc.wf_ipv4 false frame = true /\
+    Rfc.ivSrc (Rfc.view_ip4 frame) = rLocal r /\ Rfc.ivDst (Rfc.view_ip4 frame) = rRemote r /\
+    Rfc.ivPayload (Rfc.view_ip4 frame) = hdr /\
+    Rfc.tvSport (Rfc.view_tcp hdr) = sp /\ Rfc.tvDport (Rfc.view_tcp hdr) = dp /\
+    Rfc.tvSeq (Rfc.view_tcp hdr) = w32 sq /\ Rfc.tvAck (Rfc.view_tcp hdr) = w32 ak /\
+    Rfc.tvFlags (Rfc.view_tcp hdr) = fl /\ Rfc.tvPayload (Rfc.view_tcp hdr) = [] /\
+    parseSynOptions (Rfc.tvOpts (Rfc.view_tcp hdr)) isAck = Ok (syn_expected oe isAck).
+Proof.
+  intros oe Hoff Ls Ld Bs Bd Hsrc Hsp Hdp Hfl Hsane Hsyn Hwf Hpool Httl.
+  destruct (make_syn_options_wire oe pool Hwf Hpool) as (Hmk & Hitems & Hleg & Hlen & Hmod).
+  destruct (parse_recovers_syn_options oe isAck pool Hwf Hpool) as (bytes & Hmo & _ & _ & Hparse).
+  assert (Eb : bytes = wire (syn_program oe)).
+  { unfold make_syn_options in Hmk. rewrite Hmo in Hmk. cbn [obind fst snd] in Hmk. change (0 =? 0) with true in Hmk.
+    cbv iota in Hmk. congruence. }
+  subst bytes.
+  destruct (tcp_frame_wf4 r sp dp [] fl sq ak wnd (syn_program oe) ttl c Hoff Ls Ld Bs Bd Hsrc Hsp Hdp Hfl Hsane
+              Hitems ltac:(rewrite Hsyn; exact Hleg) Hlen Hmod ltac:(constructor) I
+              ltac:(unfold vsize; cbn [concat length]; lia) Httl) as (hdr & frame & Hsend & Hw & W & V4 & VT).
+  cbn [concat] in V4, VT. rewrite app_nil_r in V4, VT.
+  exists hdr, frame. eexists.
+  split.
+  { unfold send_syn_tcp. fold (eff_syn o mtu). fold oe. rewrite Hmk. cbn [obind]. exact Hsend. }
+  split; [exact Hw|]. split; [exact W|].
+  rewrite V4, VT. cbn [Rfc.ivSrc Rfc.ivDst Rfc.ivPayload Rfc.tvSport Rfc.tvDport Rfc.tvSeq Rfc.tvAck Rfc.tvFlags Rfc.tvPayload Rfc.tvOpts].
+  repeat (split; [reflexivity|]). exact Hparse.
+Qed.
+
+(* data / ACK / FIN / RST segments (sendRaw over IPv4) with timestamps on or off and up to as many
+   SACK blocks as fit: well-formed, and ParseTCPOptions recovers timestamp values and blocks *)
+Theorem seg_frame_wf4 r sp dp data fl sq ak wnd (tsOk : bool) tsVal tsEcr (sackPermitted : bool) blocks pool ttl c :
+  rOffload r = false ->
+  length (rLocal r) = 4%nat -> length (rRemote r) = 4%nat -> bytes_ok (rLocal r) -> bytes_ok (rRemote r) ->
+  Rfc.src4_ok (rLocal r) = true ->
+  0 <= sp < 65536 -> 0 <= dp < 65536 -> 0 <= fl < 256 -> flag_sane fl = true -> Rfc.has fl Rfc.SYN = false ->
+  wf_opt tsVal tsEcr blocks -> (length blocks <= (if tsOk then 3%nat else 4%nat))%nat ->
+  length pool = maxOptionSize ->
+  Forall bytes_ok data -> nonfinal_even data -> vsize data <= 65455 -> 1 <= ttl < 256 ->
+  exists hdr frame c',
+    send_raw r sp dp data fl sq ak wnd tsOk tsVal tsEcr sackPermitted blocks pool = Some hdr /\
+    ipv4_write r hdr data 6 ttl c = Some (frame, c') /\
+    Rfc.wf_ipv4 false frame = true /\
+    Rfc.ivSrc (Rfc.view_ip4 frame) = rLocal r /\ Rfc.ivDst (Rfc.view_ip4 frame) = rRemote r /\
+    Rfc.ivPayload (Rfc.view_ip4 frame) = hdr ++ concat data /\
+    Rfc.tvSport (Rfc.view_tcp (hdr ++ concat data)) = sp /\ Rfc.tvDport (Rfc.view_tcp (hdr ++ concat data)) = dp /\
+    Rfc.tvSeq (Rfc.view_tcp (hdr ++ concat data)) = w32 sq /\ Rfc.tvAck (Rfc.view_tcp (hdr ++ concat data)) = w32 ak /\
+    Rfc.tvFlags (Rfc.view_tcp (hdr ++ concat data)) = fl /\
+    Rfc.tvWnd (Rfc.view_tcp (hdr ++ concat data)) = w16 (clampw wnd) /\
+    Rfc.tvPayload (Rfc.view_tcp (hdr ++ concat data)) = concat data /\
+    parseTCPOptions (Rfc.tvOpts (Rfc.view_tcp (hdr ++ concat data))) =
+      Ok (mkOpts tsOk (if tsOk then tsVal else 0) (if tsOk then tsEcr else 0) (if sackPermitted then blocks else [])).
+Proof.
+  intros Hoff Ls Ld Bs Bd Hsrc Hsp Hdp Hfl Hsane Hsyn Hwf Hnb Hpool Bdata Hev Hsz Httl.
+  destruct (make_seg_options_wire tsOk tsVal tsEcr sackPermitted blocks pool Hwf Hpool Hnb) as (Hmk & Hitems & Hleg & Hlen & Hmod).
+  destruct (parse_recovers_options tsOk tsVal tsEcr sackPermitted blocks pool Hwf Hpool) as (bytes & Hmo & _ & _ & Hparse).
+  assert (Eb : bytes = wire (opt_program tsOk tsVal tsEcr sackPermitted blocks)).
+  { unfold make_seg_options in Hmk. rewrite Hmo in Hmk. cbn [obind fst snd] in Hmk. change (0 =? 0) with true in Hmk.
+    cbv iota in Hmk. congruence. }
+  subst bytes.
+  assert (Hvs : 0 <= vsize data) by (unfold vsize; lia).
+  destruct (tcp_frame_wf4 r sp dp data fl sq ak wnd (opt_program tsOk tsVal tsEcr sackPermitted blocks) ttl c
+              Hoff Ls Ld Bs Bd Hsrc Hsp Hdp Hfl Hsane Hitems ltac:(rewrite Hsyn; exact Hleg) Hlen Hmod Bdata Hev
+              ltac:(lia) Httl) as (hdr & frame & Hsend & Hw & W & V4 & VT).
+  exists hdr, frame. eexists.
+  split.
+  { unfold send_raw. rewrite Hmk. cbn [obind]. exact Hsend. }
+  split; [exact Hw|]. split; [exact W|].
+  rewrite V4, VT. cbn [Rfc.ivSrc Rfc.ivDst Rfc.ivPayload Rfc.tvSport Rfc.tvDport Rfc.tvSeq Rfc.tvAck Rfc.tvFlags Rfc.tvWnd Rfc.tvPayload Rfc.tvOpts].
+  repeat (split; [reflexivity|]). rewrite Hparse. f_equal. f_equal.
+  destruct sackPermitted; [|reflexivity]. apply firstn_all2. destruct tsOk; lia.
+Qed.
+
+(* ====================================================================== ARP and Ethernet *)
+Lemma len6 (a : list Z) : length a = 6%nat -> exists a0 a1 a2 a3 a4 a5, a = [a0; a1; a2; a3; a4; a5].
+Proof.
+  intros H. do 6 (destruct a as [|? a]; [discriminate H|]). destruct a; [|discriminate H]. repeat eexists.
+Qed.
+
+(* the ARP request LinkAddressRequest broadcasts and the reply HandlePacket sends *)
+Theorem arp_request_wf mac spa tpa :
+  length mac = 6%nat -> length spa = 4%nat -> length tpa = 4%nat -> nth 0 mac 0 mod 2 = 0 ->
+  exists p, arp_request mac spa tpa = Some p /\ Rfc.wf_arp p = true /\
+    Rfc.arp_op_of p = 1 /\ Rfc.arp_sha p = mac /\ Rfc.arp_spa p = spa /\ Rfc.arp_tpa p = tpa.
+Proof.
+  intros Lm Ls Lt Hu.
+  destruct (len6 _ Lm) as (m0&m1&m2&m3&m4&m5&->). destruct (len4 _ Ls) as (s0&s1&s2&s3&->). destruct (len4 _ Lt) as (t0&t1&t2&t3&->).
+  cbn [nth] in Hu.
+  unfold arp_request, arp_setIPv4OverEthernet, arp_setOp, put8, copy_into, set_range, zeros.
+  cbn [repeat upd obind length Nat.add Nat.leb firstn skipn app].
+  eexists. split; [reflexivity|].
+  split; [|repeat split; reflexivity].
+  unfold Rfc.wf_arp. cbn [Rfc.zlen length Rfc.b16 Rfc.b8 nth Rfc.arp_op_of]. rewrite Hu. reflexivity.
+Qed.
+
+Theorem arp_reply_wf mac reqSHA reqTPA reqSPA :
+  length mac = 6%nat -> length reqSHA = 6%nat -> length reqTPA = 4%nat -> length reqSPA = 4%nat ->
+  nth 0 mac 0 mod 2 = 0 -> nth 0 reqSHA 0 mod 2 = 0 -> Rfc.all_eq 0 reqSHA = false ->
+  exists p, arp_reply mac reqSHA reqTPA reqSPA = Some p /\ Rfc.wf_arp p = true /\
+    Rfc.arp_op_of p = 2 /\ Rfc.arp_sha p = mac /\ Rfc.arp_spa p = reqTPA /\
+    Rfc.arp_tha p = reqSHA /\ Rfc.arp_tpa p = reqSPA.
+Proof.
+  intros Lm Lh Lt Ls Hu Hu2 Hnz.
+  destruct (len6 _ Lm) as (m0&m1&m2&m3&m4&m5&->). destruct (len6 _ Lh) as (h0&h1&h2&h3&h4&h5&->).
+  destruct (len4 _ Ls) as (s0&s1&s2&s3&->). destruct (len4 _ Lt) as (t0&t1&t2&t3&->).
+  cbn [nth] in Hu, Hu2.
+  unfold arp_reply, arp_setIPv4OverEthernet, arp_setOp, put8, copy_into, set_range, zeros.
+  cbn [repeat upd obind length Nat.add Nat.leb firstn skipn app].
+  eexists. split; [reflexivity|].
+  split; [|repeat split; reflexivity].
+  unfold Rfc.wf_arp. cbn [Rfc.zlen length Rfc.b16 Rfc.b8 nth Rfc.arp_op_of].
+  change (Rfc.arp_tha _) with [h0; h1; h2; h3; h4; h5]. rewrite Hu, Hu2, Hnz. reflexivity.
+Qed.
+
+(* the Ethernet header of fdbased.WritePacket: destination = the route's remote link address,
+   source = the route's local link address when the route has a local address, else the
+   endpoint's own; EtherType = the network protocol; the packet follows unchanged *)
+Theorem eth_write_frame r ep proto pkt :
+  length (rRemoteLink r) = 6%nat -> 0 <= proto < 65536 ->
+  let src := match rLocal r with [] => ep | _ => rLocalLink r end in
+  length src = 6%nat ->
+  exists f, eth_write r ep proto pkt = Some f /\
+    Rfc.eth_dst f = rRemoteLink r /\ Rfc.eth_src f = src /\ Rfc.eth_type_of f = proto /\ skipn 14 f = pkt.
+Proof.
+  intros Ld Hp src Ls. unfold eth_write. fold src.
+  destruct (len6 _ Ld) as (d0&d1&d2&d3&d4&d5&Ed). destruct (len6 _ Ls) as (s0&s1&s2&s3&s4&s5&Es).
+  rewrite Ed, Es. unfold eth_encode, put16, copy_into, set_range, zeros.
+  cbn [repeat upd obind length Nat.add Nat.leb firstn skipn app ethType ethSrcAddr ethDstAddr].
+  eexists. split; [reflexivity|].
+  split; [reflexivity|]. split; [reflexivity|]. split; [|reflexivity].
+  unfold Rfc.eth_type_of, Rfc.b16, Rfc.b8. cbn [nth app].
+  unfold w16, w8. change (2^16) with 65536. change (2^8) with 256. Z.div_mod_to_equations. lia.
+Qed.
+
+(* the known finding as a statement about the model: a route with a local address but no local
+   link address (the one ipv6 LinkAddressRequest builds) yields a zero source MAC *)
+Lemma eth_write_zero_src_refuted :
+  exists r ep proto pkt f, rLocal r <> [] /\ length ep = 6%nat /\ Rfc.all_eq 0 ep = false /\
+    eth_write r ep proto pkt = Some f /\ Rfc.eth_src f = [0; 0; 0; 0; 0; 0].
+Proof.
+  exists (mkRoute [254;128;0;0;0;0;0;0;0;0;0;0;0;0;0;1] [255;2;0;0;0;0;0;0;0;0;0;1;255;0;0;2] [] [255;255;255;255;255;255] false),
+         [2;0;0;0;0;1], 34525, [96]. eexists.
+  split; [discriminate|]. split; [reflexivity|]. split; [reflexivity|]. split; reflexivity.
+Qed.
+
+(* ====================================================================== examples *)
+(* the hypotheses of the frame theorems are satisfiable: a SYN with every option, a data segment
+   with timestamps and two SACK blocks, both checked by the independent predicate *)
+Example syn_frame_example :
+  let r := mkRoute [10;0;0;1] [10;0;0;2] [] [] false in
+  exists hdr frame c',
+    send_syn_tcp r 1500 1234 80 2 4000000000 0 70000 (mkSyn 0 7 true 1000 0 true) (repeat 9 40) = Some hdr /\
+    ipv4_write r hdr [] 6 255 41 = Some (frame, c') /\
+    Rfc.wf_ipv4 false frame = true /\ length frame = 60%nat /\ c' = 41.
+Proof.
+  cbv zeta. eexists. eexists. eexists.
+  split; [vm_compute; reflexivity|]. split; [vm_compute; reflexivity|]. split; vm_compute; split; reflexivity.
+Qed.
+
+Example seg_frame_example :
+  let r := mkRoute [10;0;0;1] [10;0;0;2] [] [] false in
+  exists hdr frame c',
+    send_raw r 1234 80 [[1; 2; 3; 4]; [5; 6; 7]] 24 4294967295 17 65535 true 5 6 true [(100, 200); (300, 400)] (repeat 9 40) = Some hdr /\
+    ipv4_write r hdr [[1; 2; 3; 4]; [5; 6; 7]] 6 255 65535 = Some (frame, c') /\
+    Rfc.wf_ipv4 false frame = true /\ length frame = 79%nat /\ c' = 65536 /\ Rfc.ip4_id frame = 0.
+Proof.
+  cbv zeta. eexists. eexists. eexists.
+  split; [vm_compute; reflexivity|]. split; [vm_compute; reflexivity|]. vm_compute. repeat split; reflexivity.
+Qed.
